@@ -249,7 +249,7 @@ def check(run):
     thorough = run.tier == 'thorough'
     graphs, cases, tabs, kinds = [], [], [], []
     for n in range(3000 if thorough else 120):
-        inex = [None, None, None, None, 'rn_odometry', 'rn_landmark', 'se2_offset', None, 'no_registry'][n % 9]
+        inex = [None, None, None, None, 'rn_odometry', 'rn_landmark', 'se2_offset', None, 'no_registry', None, None, 'no_offset_id'][n % 12]
         g = GG.gen_real_graph(rnd, extreme=(n % 3 != 0), inexpressible=inex)
         tab = GG.SymTab()
         cases.append({'mode': 'roundtrip', 'g': GG.abstract(g, tab)})
@@ -282,7 +282,7 @@ def check(run):
             except Exception as ex:  # noqa
                 raised = ex
             run.count(key=n, nontrivial=True)
-            if inex == 'no_registry':
+            if inex in ('no_registry', 'no_offset_id'):
                 # The offsets of the SE(3) landmark edges cannot reach the file (no parameter lines): the round trip must either fail loudly
                 # (export or import raises) or be lossless - never succeed with other offsets.
                 stats['no_registry'] = stats.get('no_registry', 0) + 1
